@@ -67,7 +67,7 @@ fn phdr(p_type: u32, p_offset: u64, p_vaddr: u64) -> Vec<u8> {
 
 /// craft linker data in a two-page pattern region that is followed by a PROT_NONE page
 pub fn case_dso(id: &str, r: &mut Rng) -> String {
-    let scen = *r.pick(&["good", "cyclic", "selfloop", "hugephnum", "mulphnum", "vaddr-underflow", "dyn-overflow", "dyn-short", "rdebug-unreadable", "linkmap-short", "name-unreadable", "no-null", "bigphnum"]);
+    let scen = *r.pick(&["good", "cyclic", "selfloop", "hugephnum", "mulphnum", "vaddr-underflow", "dyn-overflow", "dyn-short", "rdebug-unreadable", "linkmap-short", "name-unreadable", "no-null", "bigphnum", "rho", "tail-selfloop", "rho-long"]);
     // (bigphnum: a program-header count beyond what an ELF header can announce, over a region large enough for all of
     // those headers to be read)
     let t = match Target::spawn(&["-r".to_string(), if scen == "bigphnum" { "4194304:r".to_string() } else { "8192:n".to_string() }]) {
@@ -87,6 +87,15 @@ pub fn case_dso(id: &str, r: &mut Rng) -> String {
     match scen {
         "cyclic" => maps[1].3 = lm0,
         "selfloop" => maps[0].3 = lm0,
+        // cycles that never come back to the head of the list
+        "tail-selfloop" => maps[1].3 = lm0 + 40,
+        "rho" => { maps[1].3 = lm0 + 80; maps.push((0x5000, 0, 0x6000, lm0 + 40)); }
+        "rho-long" => {
+            let n = r.range(3, 9);
+            for k in 2..n { maps[(k - 1) as usize].3 = lm0 + 40 * k; maps.push((0x1000 * (2 * k + 1), 0, 0x1000 * (2 * k + 2), 0)); }
+            let back = r.range(1, n - 1);
+            maps[(n - 1) as usize].3 = lm0 + 40 * back;
+        }
         "hugephnum" => phnum = 1 << 40,
         "bigphnum" => phnum = *r.pick(&[65535u64, 65536, 65537, 70000, 74000]),
         "mulphnum" => phnum = u64::MAX / 8,
